@@ -45,6 +45,12 @@ enum Shape {
     Both,
     /// the subject alone in a single-variant record
     Alone,
+    /// two data of the subject's type; one of them removed in variant 1
+    TwinsOneRemoved,
+    /// two data of the subject's type; both removed in variant 1, one added again in variant 2
+    TwinsBothRemovedOneBack,
+    /// the subject and a datum of another restricted type; the subject removed in variant 1
+    WithNeitherSubjectRemoved,
 }
 
 const PROBE: &str = r#"
@@ -66,7 +72,7 @@ pub fn main(args: &Args, ext: &Externs) -> i32 {
     let ks = kinds();
     let mut cases: Vec<(usize, Shape)> = vec![];
     for k in 0..ks.len() {
-        for s in [Shape::FirstOnly, Shape::LaterOnly, Shape::Both, Shape::Alone] {
+        for s in [Shape::FirstOnly, Shape::LaterOnly, Shape::Both, Shape::Alone, Shape::TwinsOneRemoved, Shape::TwinsBothRemovedOneBack, Shape::WithNeitherSubjectRemoved] {
             cases.push((k, s));
         }
     }
@@ -114,6 +120,42 @@ pub fn main(args: &Args, ext: &Externs) -> i32 {
                 (kind.add)(&mut b, "subject");
                 b.close_record_variant();
                 expect.push((kind.send, kind.sync));
+            }
+            Shape::TwinsOneRemoved => {
+                let first = (kind.add)(&mut b, "subject");
+                (kind.add)(&mut b, "twin");
+                b.add_datum::<u16, _>("plain").unwrap();
+                b.close_record_variant();
+                b.remove_datum(first).unwrap();
+                b.close_record_variant();
+                b.add_datum::<u8, _>("more").unwrap();
+                b.close_record_variant();
+                expect.push((kind.send, kind.sync));
+                expect.push((kind.send, kind.sync));
+                expect.push((kind.send, kind.sync));
+            }
+            Shape::TwinsBothRemovedOneBack => {
+                let first = (kind.add)(&mut b, "subject");
+                let second = (kind.add)(&mut b, "twin");
+                b.close_record_variant();
+                b.remove_datum(first).unwrap();
+                b.remove_datum(second).unwrap();
+                b.add_datum::<u32, _>("plain").unwrap();
+                b.close_record_variant();
+                (kind.add)(&mut b, "back");
+                b.close_record_variant();
+                expect.push((kind.send, kind.sync));
+                expect.push((true, true));
+                expect.push((kind.send, kind.sync));
+            }
+            Shape::WithNeitherSubjectRemoved => {
+                let first = (kind.add)(&mut b, "subject");
+                b.add_datum::<usertypes::Neither, _>("other").unwrap();
+                b.close_record_variant();
+                b.remove_datum(first).unwrap();
+                b.close_record_variant();
+                expect.push((false, false));
+                expect.push((false, false));
             }
         }
         let def = b.build();
@@ -196,7 +238,7 @@ pub fn main(args: &Args, ext: &Externs) -> i32 {
     report
         .cov("evaluations", n)
         .cov("distinct_nontrivial", nontrivial)
-        .cov("rule", "every field kind of {Send+Sync, Send-only (Cell, wrapped Cell), Sync-only, neither (Rc, wrapped Rc), raw pointer} x {only in the first variant, only in a later variant, in both, alone} -> for every generated RecordK and each of Send / Sync the compiler decides (inherent-const-over-blanket-trait probe, rustc --emit=metadata) whether the record implements the trait; it must equal the conjunction over that variant's fields. evaluations = (record, trait) questions; non-trivial = questions whose expected answer is 'no'")
+        .cov("rule", "every field kind of {Send+Sync, Send-only (Cell, wrapped Cell), Sync-only, neither (Rc, wrapped Rc), raw pointer} x {only in the first variant, only in a later variant, in both, alone, two data of the type with one removed, both removed and one added back, next to another restricted type and removed} -> for every generated RecordK and each of Send / Sync the compiler decides (inherent-const-over-blanket-trait probe, rustc --emit=metadata) whether the record implements the trait; it must equal the conjunction over that variant's fields. evaluations = (record, trait) questions; non-trivial = questions whose expected answer is 'no'")
         .cov("samples", samples)
         .cov("exhaustive", true)
         .cov("field_kinds", ks.iter().map(|k| json!([k.name, k.send, k.sync])).collect::<Vec<_>>());
